@@ -361,26 +361,16 @@ def execute(scen, scratch):
         fresh_cache = {}
 
         def fresh(i, fmt, thr, op_kind="shex"):
+            """the fresh model of one call, computed in a pristine process (dsim/pristine.py): a brand-new Shaper with
+            the caller's original arguments, a fault-free world of its own, never-flush knob"""
             key = (i, fmt, thr, op_kind)
             if key in fresh_cache:
                 return fresh_cache[key]
             nonlocal runs
-            spec = specs[i]
-            kw = _base_kwargs(spec)
-            kw["namespaces_dict"] = copy.deepcopy(orig_ns[i])
-            skw, ep = w.source_kwargs(spec, "fresh%d" % i)
-            kw.update(skw)
-            if ep is not None:
-                sim.set_endpoint(ep)
-            set_knob(NEVER_FLUSH)
-            holder = {}
-
-            def fn():
-                holder["sh"] = new_shaper(kw)
-                if op_kind == "profile":
-                    return holder["sh"].profile_graph(string_output=True)
-                return holder["sh"].shex_graph(string_output=True, output_format=fmt, acceptance_threshold=thr)
-            r = call(fn)
+            from .. import pristine
+            d = pristine.call("dsim.props.c18", "compute_fresh", scen, i, fmt, thr, op_kind,
+                              os.path.join(scratch, "fresh"))
+            r = Result(d["kind"], text=d["text"], exc=d["exc"], msg=d["msg"], groups=d["groups"])
             runs += 1
             fresh_cache[key] = r
             return r
@@ -538,6 +528,35 @@ def execute(scen, scratch):
     nontrivial = (shapes > 0) and (multi_call or bool(scen["share"]) or sum(sim.faults.values()) > 0
                                    or sim.probes.get("multi_flush", 0) > 0)
     return finish(sim, violations, verdicts, nontrivial, runs, out_texts)
+
+
+def compute_fresh(scen, i, fmt, thr, op_kind, scratch):
+    """Runs in a pristine process.  Pure function of the scenario document."""
+    os.makedirs(scratch, exist_ok=True)
+    sim = Sim(scratch)
+    with sim:
+        w = _World(sim, scen)
+        spec = scen["shapers"][i]
+        kw = _base_kwargs(spec)
+        kw["namespaces_dict"] = copy.deepcopy(spec["ns"])
+        skw, ep = w.source_kwargs(spec, "fresh%d" % i)
+        kw.update(skw)
+        if ep is not None:
+            sim.set_endpoint(ep)
+        set_knob(NEVER_FLUSH)
+        holder = {}
+
+        def fn():
+            holder["sh"] = new_shaper(kw)
+            if op_kind == "profile":
+                return holder["sh"].profile_graph(string_output=True)
+            return holder["sh"].shex_graph(string_output=True, output_format=fmt, acceptance_threshold=thr)
+        r = call(fn, None)
+        groups = None
+        if r.kind == "ok" and "sh" in holder:
+            from ..compare import profile_groups
+            groups = profile_groups(holder["sh"])
+    return {"kind": r.kind, "text": r.text, "exc": r.exc, "msg": r.msg, "groups": groups}
 
 
 def _arm(sim, ep, fault):
